@@ -195,7 +195,11 @@ func runC16(c *vh.Ctx) {
 		"name orders), cycle, diamond, unused-parameter, local-array, and call-shape programs (3-6 functions, 1-4 parameters mixing arrays and " +
 		"scalars in every order, nested user calls as scalar arguments up to depth 3, local arrays, fewer arguments) checked against a reference " +
 		"evaluator, deep-recursion programs (5-300 frames, 1-2 local arrays per frame, element/split/delete/sub writes into by-reference and " +
-		"global arrays at the bottom and on the way back) checked against a simulation, and every program once more with ParserConfig.Funcs " +
+		"global arrays at the bottom and on the way back) checked against a simulation, zigzag chains (3-12 links alternating globals and " +
+		"unused / forward-only parameters, the one direct use at either end or in the middle, call sites along / against / across the " +
+		"flow, as BEGIN blocks, one block, or bodies of uncalled functions), locals-after-leave programs (2-4 functions with mixed local " +
+		"arrays and scalars reporting their locals on entry; left by return, falling off the end, exit, next, nextfile, division by zero " +
+		"or call-depth overflow at depth 0-8, called from BEGIN, actions, patterns and END) checked against a simulation, and every program once more with ParserConfig.Funcs " +
 		"entries named like its AWK functions; each structured program under every permutation of its top-level items (<=6 items, else " +
 		"sampled) and three renamings; non-trivial = the program has a call that passes a variable to an AWK function")
 
@@ -223,12 +227,21 @@ func runC16(c *vh.Ctx) {
 		progs = append(progs, genDiamond(c.Rng, u))
 	}
 	progs = append(progs, genLocalArray(c.Rng, 3))
+	// global - parameter - global chains through unused parameters; call sites along / against the flow (class of seeded C16-p3)
+	for _, n := range []int{3, 5, 8, 12} {
+		for order := 0; order < 2; order++ {
+			progs = append(progs, genZigzag(c.Rng, n, 0, 2, 0, 0, order, 0, false), genZigzag(c.Rng, n, n, 1, 0, 0, order, 1, false))
+		}
+		progs = append(progs, genZigzag(c.Rng, n, 0, 2, n, 1, 1, 0, false), genZigzag(c.Rng, n, n/2, 2, 0, 0, 2, 2, true))
+	}
 	if c.Thorough() {
 		progs = append(progs, genChain(c.Rng, 400, 2, 0, 1, false), genChain(c.Rng, 300, 0, 2, 2, true), genChain(c.Rng, 400, 0, 2, 0, false))
 	}
-	nShapes := c.N(60, 600)
+	nShapes := c.N(84, 840)
 	for i := 0; i < nShapes; i++ {
-		switch c.Rng.Intn(5) {
+		switch c.Rng.Intn(7) {
+		case 5, 6:
+			progs = append(progs, genZigzagRandom(c.Rng))
 		case 0:
 			progs = append(progs, genChain(c.Rng, 1+c.Rng.Intn(12), c.Rng.Intn(3), c.Rng.Intn(3), c.Rng.Intn(3), c.Rng.Intn(2) == 0))
 		case 1:
@@ -417,6 +430,7 @@ func runC16(c *vh.Ctx) {
 	semanticProbes(c)
 	callShapeOracle(c)
 	deepRecOracle(c)
+	leaveOracle(c)
 
 	// correspondence with the Lean model
 	if c.HasLean() {
